@@ -577,6 +577,30 @@ func genC36(g *Gen) {
 		if k > 1 && g.R.Chance(35) { // identical permission scope twice in one batch (coalescing)
 			cmds[k-1] = cmds[0]
 			g.Count("batch:duplicate-scope")
+		} else if k > 1 && g.R.Chance(30) { // same sender/channel, ONE scope field differs (must not coalesce)
+			p := strings.Split(cmds[0], "/")
+			switch g.R.Intn(3) {
+			case 0: // device: system device vs ordinary
+				if p[1] == Hex([]byte("sysdev")) {
+					p[1] = Hex([]byte("d1"))
+				} else {
+					p[1] = Hex([]byte("sysdev"))
+				}
+			case 1: // normalize flag
+				if p[4][0] == '1' {
+					p[4] = "0" + p[4][1:]
+				} else {
+					p[4] = "1" + p[4][1:]
+				}
+			default: // channel type
+				if p[3] == "2" {
+					p[3] = "6"
+				} else {
+					p[3] = "2"
+				}
+			}
+			cmds[k-1] = strings.Join(p, "/")
+			g.Count("batch:near-duplicate-scope")
 		}
 		g.Count(fmt.Sprintf("batch:size=%d", k))
 		g.Op("perm", "cfg=%s%s/%s sys=%s ch=%s ct=%s ha=%s cmd=%s", bits, wl, Hex([]byte(sysDev)), sys,
